@@ -381,3 +381,28 @@ func init() {
 	RegisterNamed("MInt", MInt(0))
 	markRecursive()
 }
+
+// Recursive through fields that carry a tag option (codecs built under a tag).
+type TreeP struct {
+	Kids []TreeP `plenc:"1,proto"`
+	V    int     `plenc:"2,flat"`
+	Name string  `plenc:"3,intern"`
+	Next *TreeP  `plenc:"4,proto"`
+}
+
+type TagMutA struct {
+	B []TagMutB `plenc:"1,proto"`
+	X NInt      `plenc:"2,flat"`
+}
+type TagMutB struct {
+	A *TagMutA           `plenc:"1"`
+	M map[string]TagMutA `plenc:"2,proto"`
+	Y string             `plenc:"3"`
+}
+
+func init() {
+	RegisterNamed("TreeP", TreeP{})
+	RegisterNamed("TagMutA", TagMutA{})
+	RegisterNamed("TagMutB", TagMutB{})
+	markRecursive()
+}
